@@ -30,19 +30,28 @@ class Ctx:
         self.notes = []
         self.assumptions = []
         self.floors = {}      # rule id -> minimum number of instances
+        self.dups = 0
 
     def rule(self, rid, text, floor=1):
         self.rules[rid] = text
         self.floors[rid] = floor
 
+    def _add(self, ob):
+        # monomorphic copies of one generic function give the same (rule, key, verdict): recorded once
+        for o in self.obs:
+            if o.rule == ob.rule and o.key == ob.key and o.ok == ob.ok:
+                self.dups += 1
+                return
+        self.obs.append(ob)
+
     def ok(self, rule, key, what, where=None, detail=None):
-        self.obs.append(Ob(rule, key, what, where, True, detail))
+        self._add(Ob(rule, key, what, where, True, detail))
 
     def bad(self, rule, key, what, where=None, detail=None):
-        self.obs.append(Ob(rule, key, what, where, False, detail))
+        self._add(Ob(rule, key, what, where, False, detail))
 
     def check(self, cond, rule, key, what, where=None, detail=None):
-        self.obs.append(Ob(rule, key, what, where, bool(cond), None if cond else detail))
+        self._add(Ob(rule, key, what, where, bool(cond), None if cond else detail))
         return bool(cond)
 
     def fn(self, inst):
